@@ -51,6 +51,7 @@ type Contract struct {
 	Line        int
 	IsVar       bool // contract of a function-typed package variable
 	Splits      []*SExpr
+	NoGrow      map[int]bool // append calls (by ordinal) that are proved to fit the capacity; only the in-place result is modelled
 	Asserts     []*AssertAt
 }
 
@@ -456,6 +457,21 @@ func (cs *Contracts) LoadFile(path, pkg string) error {
 			c := mk("assert", body)
 			if c != nil {
 				cur.Asserts = append(cur.Asserts, &AssertAt{Callee: fs[1], K: k, Clause: c, Split: split})
+			}
+		case "nogrow":
+			if cur == nil {
+				continue
+			}
+			for _, f := range strings.Fields(rest) {
+				k, err := strconv.Atoi(f)
+				if err != nil {
+					cs.errf(path, it.line, "bad nogrow ordinal %q", f)
+					continue
+				}
+				if cur.NoGrow == nil {
+					cur.NoGrow = map[int]bool{}
+				}
+				cur.NoGrow[k] = true
 			}
 		case "split":
 			if cur == nil {
